@@ -118,7 +118,7 @@ def step (cs : CaseSt) (op obs : String) : CaseSt × R :=
   | "scenario" =>
     let ls := ((getF fs "listeners").getD "").splitOn ","
     let k := (getNat fs "inflight").getD 0
-    let ample := getF fs "ctx" == some "ample" || getF fs "ctx" == some "tight"   -- tight: still enough for the request as a whole
+    let ample := getF fs "ctx" == some "ample" || getF fs "ctx" == some "tight" || getF fs "ctx" == some "retry"   -- retry: the observed Stop follows one that gave up; tight: still enough for the request as a whole
     let ready := getF fs "timing" == some "ready"
     let web := ls.contains "http" || ls.contains "https"
     let started := if web && ready then k else 0
@@ -146,7 +146,7 @@ def step (cs : CaseSt) (op obs : String) : CaseSt × R :=
       (if !ample || g "stoperr" == 0 then [] else ["C18.stop_error_matches_contract"]) ++
       -- in-flight gRPC calls (model-free): with an ample context Stop waits for them and they complete; with an expired
       -- one Stop cuts them off by itself and returns
-      (if !(ls.contains "grpc" && ready) || (getNat ofs "grpcinflight").getD k == k then [] else ["C18.harness_inflight"]) ++
+      (if !(ls.contains "grpc" && ready) || (getNat ofs "grpcinflight").getD k == (if getF fs "ctx" == some "retry" then 0 else k) then [] else ["C18.harness_inflight"]) ++
       (if !ample || (getNat ofs "grpcdone").getD 0 == (getNat ofs "grpcinflight").getD 0 then [] else ["C18.waits_for_inflight"]) ++
       (if (getNat ofs "stopprompt").getD 1 == 1 then [] else ["C18.stop_terminates"])
     let m := s!"lts={if ltsOK then "ok" else "MISMATCH"} startret=1 stopret=1 stoperr={if ample then "0" else "any"} wgreleased=1 portsfree={showL sorted} finals={finals.length}"
